@@ -62,7 +62,7 @@ func TestMain(m *testing.M) {
 	}
 	harness.Run(&harness.Prop{
 		ID: "C19",
-		Rule: "the shipped handleMessages/handleClientMessages/handleServerMessages/keepCircularQueueUpdated of the proxy (in-package harness, package globals set as start() sets them) over two harness-owned net.Conn values whose Read is a scheduling and chunking choice point and whose Write records; a status thread calls ReportFeed.Status() twice at scheduler-chosen moments. Client streams: frame whose payload reads '<b>', HTML-looking junk before a frame, CRC-valid MSM frames with short or inconsistent content before a frame, two frames, plain junk; server streams: text and binary. All chunkings and interleavings in the unbounded pass where it completes, otherwise deviation bound 2. Oracle: at quiescence upstream sink == client bytes and client sink == server bytes; no panic; every report's message list is (after un-escaping) the display of a prefix of the sequential framing of the client stream; the number of '<' and '>' in every report equals that of the fixed template. Non-trivial = distinct schedule trace",
+		Rule: "the shipped handleMessages/handleClientMessages/handleServerMessages/keepCircularQueueUpdated of the proxy (in-package harness, package globals set as start() sets them) over two harness-owned net.Conn values whose Read is a scheduling and chunking choice point and whose Write records; a status thread calls ReportFeed.Status() twice at scheduler-chosen moments. Client streams: frame whose payload reads '<b>', HTML-looking junk before a frame, CRC-valid MSM frames with short or inconsistent content before a frame, two frames, plain junk; server streams: text and binary. plus bursts of 2047, 2048, 2049 and 4096 bytes (the relay's read buffer is 2048 bytes) in both directions under the default schedule. All chunkings and interleavings in the unbounded pass where it completes, otherwise deviation bound 2. Oracle: at quiescence upstream sink == client bytes and client sink == server bytes; no panic; every report's message list is (after un-escaping) the display of a prefix of the sequential framing of the client stream; the number of '<' and '>' in every report equals that of the fixed template. Non-trivial = distinct schedule trace",
 		Assumptions: []string{"TCP is replaced by in-memory net.Conn values: Read returns what was sent in explorer-chosen chunks, a server Read with nothing left blocks until the connection is closed, the client reports EOF only after the server's bytes have reached it; the kernel's segmentation and timing are outside the check", "the status HTTP server (go-tools dependency) is not started; ReportFeed.Status is called directly", "the daily RTCM log is a real dailylogger.Writer with logging disabled (file handling belongs to the dependency)", "'HTML-escaped' is judged on '<' and '>' only, which is what Sanitise defines"},
 		Scenarios:      scenarios,
 		QuickBudget:    60 * time.Second,
@@ -321,6 +321,73 @@ func scenarios(tier string) []*mcrt.Scenario {
 					},
 				})
 			}
+		}
+	}
+	// bursts that exactly fill, just miss and overflow the relay's 2048-byte
+	// read buffer (default schedule and default chunking: everything that fits)
+	build := func(n int) []byte {
+		var b []byte
+		fr := ref.TypedFrame(1005, 19, nil)
+		for len(b)+len(fr) <= n {
+			b = append(b, fr...)
+		}
+		for len(b) < n {
+			b = append(b, '$')
+		}
+		return b
+	}
+	for _, n := range []int{2047, 2048, 2049, 4096} {
+		for _, sn := range []int{0, 2048} {
+			cdata, sdata := build(n), bytes.Repeat([]byte{0x5A}, sn)
+			n, sn := n, sn
+			scs = append(scs, &mcrt.Scenario{
+				Name: fmt.Sprintf("burst client=%dB server=%dB", n, sn), DefaultOnly: true, Horizon: 2000000,
+				Body: func(x *mcrt.X) {
+					obs := &obsT{toServer: &hsink.Sink{Name: "upstream"}, toClient: &hsink.Sink{Name: "client"}}
+					x.Data = obs
+					byteChan = make(chan byte)
+					messageChan = make(chan rtcm.Message)
+					rtcmHandler = rtcm.New(t0, slog.LevelInfo)
+					mcrt.Go("HandleMessages", func() { rtcmHandler.HandleMessages(byteChan, messageChan) })
+					recentMessages = circularQueue.NewCircularQueue(maxNumberOfMessagesStored)
+					mcrt.Go("keepCircularQueueUpdated", func() { keepCircularQueueUpdated(messageChan, recentMessages) })
+					rtcmLog = realLog
+					SetReportFeed(reportfeed.New(rtcmLog, recentMessages))
+					serverDone := make(chan struct{})
+					doneClosed := sn == 0
+					if doneClosed {
+						mcrt.Close(serverDone)
+					}
+					cl := &conn{name: "client", rd: &hsink.ChunkReader{Data: cdata, Sizes: []int{0}}, out: obs.toClient, closedCh: make(chan struct{}), eofAfter: serverDone}
+					sv := &conn{name: "server", rd: &hsink.ChunkReader{Data: sdata, Sizes: []int{0}}, out: obs.toServer, closedCh: make(chan struct{}), blockAtEnd: true}
+					cl.onWrite = func() {
+						if !doneClosed && obs.toClient.Len() >= len(sdata) {
+							doneClosed = true
+							mcrt.Close(serverDone)
+						}
+					}
+					handleMessages(sv, cl, false, 1)
+					obs.returned = true
+				},
+				Check: func(x *mcrt.X) *mcrt.Failure {
+					obs := x.Data.(*obsT)
+					if len(x.Panics) > 0 {
+						p := x.Panics[0]
+						return &mcrt.Failure{Kind: "panic in " + p.Thread + ": " + first(p.Value) + " @" + p.Site, Detail: p.Stack}
+					}
+					if !bytes.Equal(obs.toServer.Buf, cdata) {
+						return &mcrt.Failure{Kind: "upstream-did-not-receive-exactly-the-client-bytes", Detail: fmt.Sprintf("burst of %d bytes: upstream has %d bytes; end=%s", n, len(obs.toServer.Buf), x.End)}
+					}
+					if !bytes.Equal(obs.toClient.Buf, sdata) {
+						return &mcrt.Failure{Kind: "client-did-not-receive-exactly-the-server-bytes", Detail: fmt.Sprintf("burst of %d bytes: client has %d bytes; end=%s", sn, len(obs.toClient.Buf), x.End)}
+					}
+					if !obs.returned {
+						return &mcrt.Failure{Kind: "handleMessages-did-not-return end=" + x.End, Detail: fmt.Sprint(x.Blocked)}
+					}
+					harness.Outcome("burst relayed")
+					return nil
+				},
+			})
 		}
 	}
 	return scs
